@@ -80,6 +80,11 @@ def cases(ctx):
     for i, r in enumerate(runs):
         if i % ctx.nshards == ctx.shard:
             yield dict(r, i=i, kind="run")
+    # a second training over the chunk files a first one left behind (data_config.use_existing_chunks)
+    reuse_runs = [("bottomup", "plain"), ("single_instance", "structured"), ("centered_instance", "plain"), ("centroid", "structured")]
+    for j, (m_, f_) in enumerate(reuse_runs if ctx.tier == "thorough" else reuse_runs[:2]):
+        if j % ctx.nshards == ctx.shard:
+            yield {"i": 3000 + j, "kind": "reuse", "model": m_, "fw": "torch_dataset_np_chunks", "use_wandb": False, "save_ckpt": True, "form": f_, "delete_chunks": False, "omit": None}
     # runs in a child process whose working directory is a scratch folder: the default output directory (save_ckpt_path=None -> "."), and the
     # low-memory fallback of the in-memory framework to chunk files under the working directory
     cwd_runs = [{"model": "centroid", "form": "plain", "mode": "default-dir"}, {"model": "single_instance", "form": "structured", "mode": "low-memory"},
@@ -244,6 +249,8 @@ def check(ctx, case):
         return check_kill(ctx, case, run, outdir, small)
     if case["kind"] == "cwd":
         return check_cwd(ctx, case, run, small)
+    if case["kind"] == "reuse":
+        return check_reuse(ctx, case, run, outdir, small)
     seen = {}
 
     def on_boundary(event, path, k):
@@ -356,6 +363,54 @@ def check_kill(ctx, case, run, outdir, small):
         if os.path.exists(f):
             os.remove(f)
     ctx.tick(("kill",) + sig if n_kills >= 5 else None, sample={"kill_run": run, "kill_points": n_kills} if ctx.evaluations < 6 else None)
+
+
+KEY_BU_REUSE = "bottomup-chunk-reuse-needs-the-labels"
+
+
+def check_reuse(ctx, case, run, outdir, small):
+    """Train once keeping the chunk files, then train again with use_existing_chunks=True over them."""
+    from sleap_nn.training.model_trainer import ModelTrainer
+    from vf import fsaudit
+
+    sig = (run["model"], run["form"], "reuse-chunks")
+    try:
+        first = execute(run, outdir)
+        if first["exc"] is not None:
+            ctx.violation(classify_exc(run, first["exc"]), f"run {sig} (first training): {type(first['exc']).__name__}: {str(first['exc'])[:200]}", small)
+            return
+        cfg = make_config(run, outdir)
+        cfg.data_config.use_existing_chunks = True
+        ctx.count("reuse_runs")
+        try:
+            with fsaudit.Watch([outdir]) as w:
+                trainer = ModelTrainer(cfg)
+                trainer.train()
+            ctx.count("write_boundaries", w.count)
+        except Exception as e:
+            import traceback
+
+            fr = [f for f in traceback.extract_tb(e.__traceback__) if "/sleap_nn/" in f.filename]
+            where = fr[-1].name if fr else "?"
+            key = f"chunk-reuse-raises:{type(e).__name__}@{where}"
+            if run["model"] == "bottomup" and isinstance(e, AttributeError) and "skeletons" in str(e):
+                key = KEY_BU_REUSE
+            elif isinstance(e, TypeError) and ("NoneType" in str(e)):
+                key = "chunk-reuse-part-names-or-crop-size-none"
+            ctx.violation(key, f"run {sig}: the second training (use_existing_chunks=True) raised {type(e).__name__}: {str(e)[:160]} (in {where})", small)
+            return
+        hits, n = fsaudit.scan_tree([outdir], KEY.encode())
+        ctx.count("files_scanned_at_exit", n)
+        for h in hits:
+            ctx.violation(key_location(h), f"run {sig}: the API key is on disk in '{h}'", small)
+        for want in ("initial_config.yaml", "training_config.yaml", "best.ckpt"):
+            if not os.path.exists(os.path.join(outdir, want)):
+                ctx.violation("artifact-missing", f"run {sig}: {want} is missing after the second training", small)
+    finally:
+        shutil.rmtree(outdir, ignore_errors=True)
+        if os.path.exists(outdir + "_supplied.yaml"):
+            os.remove(outdir + "_supplied.yaml")
+        ctx.tick(("reuse",) + sig)
 
 
 def check_cwd(ctx, case, run, small):
